@@ -231,6 +231,9 @@ func allowedStamps(env *engine.Env, extra ...time.Time) map[int64]string {
 		add(EntryMTime.Add(d*time.Millisecond), "entry mtime")
 	}
 	for _, n := range t.Nodes {
+		if strings.HasPrefix(n.Rel, "epochs") {
+			continue // no configuration of this check ships them (their times include second 0 of 1970)
+		}
 		add(n.MTime, "mtime of source "+n.Rel)
 	}
 	for _, e := range extra {
@@ -414,7 +417,12 @@ func checkC07(env *engine.Env, ci any) engine.Outcome {
 		// SOURCE_DATE_EPOCH instead of a configured mtime
 		d := cfg.doc(env, t.Root)
 		delete(d, "mtime")
-		for _, sde := range []string{"0", "1", "1700000000"} {
+		for _, sde := range []string{"0", "1", "1700000000", "1700000000/version_schema=none"} {
+			// (the last one: the version taken as written - the package's time is SOURCE_DATE_EPOCH all the same)
+			if v, ok := strings.CutSuffix(sde, "/version_schema=none"); ok {
+				sde = v
+				d["version_schema"] = "none"
+			}
 			os.Setenv("SOURCE_DATE_EPOCH", sde)
 			a, err := buildYAML(d.YAML(), f)
 			add("sde="+sde+"#1", a, err)
